@@ -102,7 +102,8 @@ EvalGraph(g) ==
         Dep(c) ==
             LET a == c.args[1]
                 b == c.args[2]
-                exp == (b \in reach[a]) \/ (a \in reach[b])
+                exp == IF small THEN Dependent(E, a, b)
+                       ELSE (b \in reach[a]) \/ (a \in reach[b])
             IN  IF c.raised # "" THEN V("C17.dependent", "raised_on_dag", exp)
                 ELSE IF c.result = exp THEN Pass("C17.dependent")
                 ELSE IF exp THEN V("C17.dependent", "false_for_reachable_pair", exp)
